@@ -67,6 +67,8 @@ def main():
         left = sh(["git", "-C", REPO, "status", "--porcelain", "--untracked-files=no"]).stdout.decode().strip()
         if left:
             print("WARNING: /repo still dirty:\n" + left)
+        # leave no stale mutant binary behind: rebuild from the restored tree
+        sh([os.path.join(VERIF, "setup.sh")], cwd=VERIF)
     meta.setdefault("checks", {}).update(out)
     meta["checks_run_at_verif_commit"] = sh(["git", "-C", VERIF, "rev-parse", "--short", "HEAD"]).stdout.decode().strip()
     json.dump(meta, open(meta_path, "w"), indent=1, sort_keys=True)
